@@ -680,7 +680,7 @@ pub fn shard_run_grammar(prop: &str, tier: &str, seed: u64, replay_case: Option<
             }
             out.executed += 1;
             let (resp, problem) = exec_and_judge(&mut fx, g, &req, &mut cov);
-            if cov.samples.len() < 4 && gi % 997 == 3 {
+            if cov.samples.is_empty() || (cov.samples.len() < 4 && gi % 997 == 3) {
                 cov.samples.push(json!({"request": req.describe(), "class": format!("{:?}", g.class()), "response_status": resp.status, "cache_control": resp.header("cache-control")}));
             }
             if prop == "C15" {
@@ -959,7 +959,7 @@ pub fn shard_run_c16(tier: &str, seed: u64, replay_case: Option<usize>, shard: S
                         let allowed = subject_id.map(|u| in_list(&u)).unwrap_or(false);
                         let ctx = format!("[{} list={}] {}", fx.subj.kind.name(), match list_kind { 0 => "absent", 1 => "empty", 2 => "one", _ => "many" }, req.describe());
                         cov.hit(format!("list={}|ep={}|{:?}|{:?}|status={}|access={}", list_kind, endpoint, match idc { IdClass::AltListed(_) => IdClass::AltListed(0), IdClass::AltUnlisted(_) => IdClass::AltUnlisted(0), o => *o }, validity, resp.status, accesses > 0));
-                        if cov.samples.len() < 4 && sub % 13 == 5 {
+                        if cov.samples.is_empty() || (cov.samples.len() < 4 && sub % 13 == 5) {
                             cov.samples.push(json!({"context": ctx, "status": resp.status, "storage_accesses": accesses, "state_changed": changed}));
                         }
                         let rep = json!({"origin": "c16-matrix", "case": case * 1000 + sub});
